@@ -5,6 +5,7 @@ from spverif.core.util import attempt, exc_sig, documented_errors, pool_uint, ra
 from spverif.ref import pus as R
 from spverif.ref.crc import crc16
 
+SCRIBBLE = True
 ID = "C02"
 LEVEL = "exploration"
 SHARDS = {"quick": 1, "thorough": 16}
@@ -240,7 +241,37 @@ def k_view_history(ctx, seed):
             return
 
 
-KINDS = {"tc": k_tc, "tc_refuse": k_tc_refuse, "tc_short": k_tc_short, "sec_header": k_sec_header, "view_history": k_view_history}
+def k_tc_wrong_type(ctx, apid, count, data):
+    """A primary header that says 'telemetry' handed to the composite-fields route: refused, or packed as a telecommand -
+    never a 'telecommand' whose packed primary header carries packet type TM."""
+    tcm, sp, _ = _imp()
+    d = bytes.fromhex(data)
+    case = {"k": "tc_wrong_type", "apid": apid, "count": count, "data": data}
+    ctx.case("tc_wrong_type", (apid, count, d), sample=case)
+    h = sp.SpacePacketHeader(sp.PacketType.TM, apid, count, len(d) + 6, True, sp.SequenceFlags.UNSEGMENTED)
+    ok, res = attempt(lambda: bytes(tcm.PusTc.from_composite_fields(h, tcm.PusTcDataFieldHeader(17, 1, 0, 0xF), d).pack()))
+    ctx.ev("tc.refusal")
+    if ok and not (res[0] >> 4) & 1:
+        ctx.fail("tc.refusal", "telemetry_header_packed_as_telecommand", "composite", case, observed=res[:16])
+    elif not ok and not isinstance(res, ValueError):
+        ctx.fail("tc.refusal", "wrong_error", f"composite/{type(res).__name__}", case, error=repr(res))
+
+
+def k_crc_helpers(ctx, data):
+    """The module-level CRC helpers of the telecommand module append / rewrite a CRC-16/CCITT-FALSE trailer."""
+    tcm, sp, check = _imp()
+    from spverif.ref.crc import crc16
+    d = bytes.fromhex(data)
+    case = {"k": "crc_helpers", "data": data}
+    ctx.case("crc_helpers", d)
+    ok, a = attempt(lambda: bytes(tcm.generate_crc(bytearray(d))))
+    ctx.check("tc.crc", ok and a == d + crc16(d).to_bytes(2, "big"), "generate_crc", "", case, observed=a if ok else repr(a))
+    if len(d) >= 2:
+        ok, b = attempt(lambda: bytes(tcm.generate_packet_crc(bytearray(d))))
+        ctx.check("tc.crc", ok and b == d[:-2] + crc16(d[:-2]).to_bytes(2, "big"), "generate_packet_crc", "", case, observed=b if ok else repr(b))
+
+
+KINDS = {"tc_wrong_type": k_tc_wrong_type, "crc_helpers": k_crc_helpers, "tc": k_tc, "tc_refuse": k_tc_refuse, "tc_short": k_tc_short, "sec_header": k_sec_header, "view_history": k_view_history}
 ROUTES = ("ctor", "from_sp_header", "composite")
 
 
@@ -261,6 +292,8 @@ def selftest(ctx):
 
 
 def run(ctx):
+    from spverif.san import scribble
+    scribble.install()
     r = ctx.rng
 
     def rnd_data(n):
@@ -305,6 +338,9 @@ def run(ctx):
              rand_uint(r, 4), rnd_data(n), model_fed=r.random() < 0.5)
     for j in range(ctx.n(1500, 150_000)):
         k_view_history(ctx, ctx.seed * 1_000_003 + ctx.shard[0] * 100_003 + j)
+    for n in list(range(0, 40)) + [255, 256, 1000]:
+        k_crc_helpers(ctx, rnd_data(n).hex())
+        k_tc_wrong_type(ctx, r.getrandbits(11), r.getrandbits(14), rnd_data(n % 20).hex())
     # rejection clause
     reps = 3 if ctx.quick else 12
     for n in range(7, 13):
@@ -313,6 +349,7 @@ def run(ctx):
 
 
 def conclude(ctx):
+    ctx.require(ctx.extra.get("hostile_caller_scribbled_pack_results", 0) > 0, "hostile-caller sanitizer scribbled no pack() result")
     for route in ROUTES:
         for lc in ("0", "1-64", "65-4096", "big"):
             ctx.require(ctx.classes.get(f"tc/{route}/len={lc}", 0) > 0, f"class tc/{route}/len={lc} empty")
